@@ -178,6 +178,7 @@ class CSSRuleRules(CSSRule):
         cssRules.__delitem__ = self.deleteRule
 
         for rule in cssRules:
+            rule._parent = self
             rule._parentRule = self
             rule._parentStyleSheet = None
 
@@ -223,6 +224,7 @@ class CSSRuleRules(CSSRule):
 
         try:
             # detach
+            self._cssRules[index]._parent = None
             self._cssRules[index]._parentRule = None
             del self._cssRules[index]
 
@@ -263,14 +265,14 @@ class CSSRuleRules(CSSRule):
         elif isinstance(rule, cssutils.css.CSSRuleList):
             # insert all rules or none, so save for possible reset
             oldCssRules = list(self._cssRules)
-            oldParents = [(r._parentRule, r._parentStyleSheet) for r in rule]
+            oldParents = [(r._parent, r._parentRule, r._parentStyleSheet) for r in rule]
             try:
                 for i, r in enumerate(rule):
                     self.insertRule(r, index + i)
             except xml.dom.DOMException:
                 # a rule has been rejected (if raising), reset
                 for r, parents in zip(rule, oldParents):
-                    r._parentRule, r._parentStyleSheet = parents
+                    r._parent, r._parentRule, r._parentStyleSheet = parents
                 del self._cssRules[:]
                 list.extend(self._cssRules, oldCssRules)
                 raise
@@ -284,6 +286,7 @@ class CSSRuleRules(CSSRule):
 
     def _finishInsertRule(self, rule, index):
         "add `rule` at `index`"
+        rule._parent = self
         rule._parentRule = self
         rule._parentStyleSheet = None
         self._cssRules.insert(index, rule)
